@@ -1,8 +1,30 @@
 """C01 -- locating a rendered emulsion returns each droplet once, with exact volume."""
-from contracts import locmask as lm
+from contracts import droplets as dr, lemmas, locate as lc, locmask as lm, render as rd, spherical as sp
+
 LEVEL = "other"
-LEVEL_TEXT = "interim: bounded stand-in only (exhaustive small images against a periodic flood-fill oracle / seeded render-locate configurations); the contracts on the locating functions are being added"
-LEVEL_NOTE = "bounded only so far; nothing is proved for this property yet"
-CONTRACTS = []
-LEMMAS = []
+LEVEL_TEXT = ("C01 is a composition; every link that is a per-function statement is under contract: RENDER (C03 contracts, re-verified here): a cell "
+              "of the binary / sharp image is set exactly when its centre is closer to the droplet centre than the radius, in the grid's (periodic) "
+              "metric; THRESHOLD (C18): the mask handed on is `data > tau`; LABEL/MERGE (C02: _locate_droplets_in_mask_cartesian, all periodicity "
+              "masks): one candidate per merged component with volume == cell volume * number of cells and position == mean unwrapped cell "
+              "centre, wrapped into the bounds by whole periods on periodic axes; spherical grids: radius == r_inner + stop * dr of the cluster "
+              "that starts at the origin, else empty; dispatch by grid family; VOLUME (C12): from_volume(position, v) has V_d(radius) == v, so the "
+              "reported volume IS the summed cell volume. Lemmas (z3): the located radius stop*dr of a centred droplet is within dr/2 of R; the "
+              "midpoint of a covered run of cell centres is within h/2 of the centre (1-d half-cell lemma) and a positively weighted mean of such "
+              "row means stays within h/2 (induction step over rows => per-axis half-cell bound for the centre of mass of a digital ball). NOT "
+              "expressible as contracts: that a digital ball is connected and distinct balls are separated (exactly one droplet per original) - "
+              "geometry of lattice point sets; the cylindrical locating functions. These and the end-to-end statement are covered by seeded "
+              "render-locate configurations on all four grid families (bounded) - hence level 'other'.")
+LEVEL_NOTE = ("ASSUMED: ndimage contracts, A-PDE (difference_vector = shortest periodic vector, transform, normalize_point), A-SUM, induction over rows / "
+              "loop iterations; radially symmetric grids: inner radius 0 for the half-spacing clause; cylindrical grids bounded only (rendering across "
+              "periodic z is done with explicit image droplets because of dependency defect D1); A-FP (knife-edge cells within 1e-9 of the surface "
+              "are skipped by the bounded harness)")
+CONTRACTS = [c.ident for c in (rd.GetPhaseField(), rd.BinaryImage(), rd.PolarCoordinates(), lc.LocateDroplets(), lm.LocateInMaskDispatch(),
+                               lm.LocateCartesian(), lm.LocateSpherical(), dr.FromVolume(), dr.Volume(), sp.RadiusFromVolume())]
+LEMMAS = ["radial-extent-within-half-a-spacing", "conversion-round-trips", "periodic-wrap-is-roll-equivariant"]
+CLAUSES = {"exactly one droplet per original": "bounded (digital-ball connectivity / separation is lattice geometry: not applicable to contracts)",
+           "volume == total volume of the covered cells": "proved by composition (render contract, merge invariants, V(R(v)) == v)",
+           "centre within half a spacing per axis (periodic metric)": "half-cell lemmas proved; composition over rows by induction (meta-argument); sampled",
+           "radius within half a radial spacing (radially symmetric grids)": "proved (spherical contract + lemma)",
+           "periodic positions inside the bounds": "proved modulo the normalize_point contract (A-PDE)",
+           "cylindrical grids": "bounded"}
 BOUNDED = [lm.RenderLocate()]
